@@ -21,7 +21,8 @@ OPS = ([["op", n, b] for n in BOOL_OPS for b in (True, False)] +
         ["op", "class_aliaser_P", "k_"], ["op", "class_aliaser_P", "z_"], ["op", "order_P", -1], ["op", "order_P", 9],
         ["op", "validator_P", 3], ["op", "validator_P", 100], ["op", "dependent_required_P"],
         ["op", "serialized_P", "extra1"], ["op", "serialized_P", "extra2"],
-        ["op", "set_fields_Node_flat"], ["op", "unset_fields_Node"], ["op", "set_fields_View_lazy"], ["op", "unset_fields_View"]])
+        ["op", "set_fields_Node_flat"], ["op", "unset_fields_Node"], ["op", "set_fields_View_lazy"], ["op", "unset_fields_View"],
+        ["op", "cache_set_size", 64], ["op", "cache_set_size", 2]])      # resizing the caches is not a configuration change
 OBS = [["obs", "deserialize", "P", {"x": 5, "y": "s"}], ["obs", "deserialize", "P", {"x": "7"}], ["obs", "deserialize", "P", {"y": "s"}],
        ["obs", "deserialize", "P", {"k_x": 1}], ["obs", "deserialize", "P", {"x": 1, "zz": 2}], ["obs", "deserialize", "P", {"someName": 1}],
        ["obs", "deserialize", "Q", {"p": {"x": 50}, "ps": [{"x": 1}]}], ["obs", "deserialize", "Q", {}],
@@ -86,6 +87,17 @@ def run(tier):
     for ob in view_obs:
         for op2 in (["op", "set_fields_P", "x"], ["op", "class_aliaser_P", "k_"], ["op", "order_P", 9], ["op", "camel_case", True]):
             hists.append([["op", "set_fields_View_lazy"], ob, op2, ob, ["op", "unset_fields_P"], ob])
+    # after the caches were resized, a configuration change must still invalidate what was computed (set_size installs new
+    # cache objects: reset() has to reach them)
+    for op2, ob in ((["op", "reset_serializer"], ["obs", "serialize", "Holder", "H1"]),
+                    (["op", "add_serializer", 20], ["obs", "serialize", "Holder", "H1"]),
+                    (["op", "reset_deserializers"], ["obs", "deserialize", "Holder", {"o": 4}]),
+                    (["op", "camel_case", True], ["obs", "serialize", "P", "P1"]),
+                    (["op", "set_fields_P", "x"], ["obs", "dschema", "P"])):
+        hists.append([["op", "add_serializer", 10], ["op", "add_deserializer", 2], ["op", "cache_set_size", 64], ob, op2, ob])
+    # a per-call default conversion is part of what the recursion analysis depends on
+    for first in (["obs", "serialize_dc", "Tree", "T1", "int"], ["obs", "serialize_dc", "Tree", "T2", "int"]):
+        hists.append([first, ["obs", "serialize_dc", "Tree", "T2", "tree"], ["obs", "serialize_dc", "Tree", "T2", "int"]])
     for b in (True, False):
         hists.append([["op", "override_ctor", b], ["obs", "deserialize", "Rounded", {"r": 1.5}], ["op", "override_ctor", not b],
                       ["obs", "deserialize", "Rounded", {"r": 1.5}]])
